@@ -85,7 +85,7 @@ def model(c, runs):
                  cfg=cfg_text(constants=dict(small, OpsA={"sendall", "shutdown_write", "close"}, OpsB={"close"}, MaxCalls=2, SendN=2),
                               invariants=MINVS)),
         ]
-    res = dc.mc_batch(c, jobs)
+    res = dc.mc_batch(c, jobs, parallel=12)
     gen = dict(GEN, **dc.gen_variant())
     # RP 1: the spin counterexample on the real code
     prog, plan = dc.plan_from_counterexample(res[SPIN], dict(BASE, SendN=2), U)
